@@ -1250,7 +1250,41 @@ func (c *Core) setupItem(ue *UE, withNAS bool) ngap.SetupItem {
 		psi := byte(ue.PSI)
 		item.NAS = c.protectDL(ue, 2, nas.DLNASTransport(acc, &psi, nil))
 	}
+	// message-corruption fault (C12 termination clause): damage the bytes the extractor walks
+	if m, ok := c.S.Rig["corrupt"].(map[string]interface{}); ok {
+		target, _ := m["target"].(string)
+		if target == "nas" && item.NAS != nil {
+			item.NAS = Corrupt(item.NAS, m)
+		} else if target == "transfer" {
+			item.Transfer = Corrupt(item.Transfer, m)
+		}
+	}
 	return item
+}
+
+// Corrupt applies one corruption fault {kind, off, val} to a copy of b.
+func Corrupt(b []byte, m map[string]interface{}) []byte {
+	out := append([]byte{}, b...)
+	kind, _ := m["kind"].(string)
+	offF, _ := m["off"].(float64)
+	valF, _ := m["val"].(float64)
+	off, val := int(offF), byte(valF)
+	if len(out) == 0 {
+		return out
+	}
+	off %= len(out)
+	switch kind {
+	case "truncate":
+		return out[:off]
+	case "flip":
+		out[off] ^= 1 << (val % 8)
+	case "set":
+		out[off] = val
+	case "splice":
+		// repeat the tail from off once more
+		out = append(out, out[off:]...)
+	}
+	return out
 }
 
 var setupResponseIEs = []ngap.IESpec{
